@@ -300,12 +300,27 @@ def rule_is_ready(ctx: Ctx, out: Collector) -> None:
         for flag in sub or ['_shutdown']:
             pool_states.append(('alive', AObj(('ext', 'Pool'), {flag: False}, tag='pool-alive')))
             pool_states.append(('shut down', AObj(('ext', 'Pool'), {flag: True}, tag='pool-down')))
-        others = [a for a in attrs if a != '_pool_executor']
+        # the field holding the pool: what get_pool_executor hands out (else the field whose flags is_ready reads)
+        pool_field = None
+        gpe0 = p.lookup_method(ci, 'get_pool_executor')
+        if gpe0 is not None:
+            for n in ast.walk(gpe0.node):
+                if isinstance(n, ast.Return) and isinstance(n.value, ast.Attribute) and isinstance(n.value.value, ast.Name) \
+                        and n.value.value.id == 'self':
+                    pool_field = n.value.attr
+        if pool_field is None:
+            bases = {n.value.attr for n in ast.walk(m.node) if isinstance(n, ast.Attribute) and isinstance(n.value, ast.Attribute)
+                     and isinstance(n.value.value, ast.Name) and n.value.value.id == 'self'}
+            if len(bases) == 1:
+                pool_field = bases.pop()
+        if pool_field is None or pool_field not in attrs:
+            raise AnalysisError(f'{m.fid}: the field holding the pool cannot be identified (EX-4 anchor vanished)')
+        others = [a for a in attrs if a != pool_field]
         other_states = list(itertools.product(*[[('missing', None), ('present', AObj(('ext', 'X'), {}))] for _ in others])) or [()]
         for pname, pool in pool_states:
             for ost in other_states:
                 def run(oracle: Oracle, pool=pool, ost=ost):
-                    obj = AObj(ci, {'_pool_executor': pool})
+                    obj = AObj(ci, {pool_field: pool})
                     for a, (_, v) in zip(others, ost):
                         obj.attrs[a] = v
                     interp = Interp(p, oracle)
